@@ -76,16 +76,39 @@ def tags_sync(h, obs):
     return t
 
 
+def gen_pool_c20(rng, n, tier):
+    from .. import gen_pool
+    return gen_pool.gen(rng, n, tier)
+
+
+def mon_pool_c20(h, obs):
+    """"a transaction is included in at most one delivered block": what the ordering service proposes comes out of the pool's
+    GenerateBlock; the same (account, nonce) handed out twice before it was committed ends up in two blocks"""
+    from .. import gen_pool
+    out = []
+    for hit in gen_pool.mon_pool(h, obs, "C18"):
+        if hit.fp.startswith("C18/batched-twice"):
+            out.append(Hit("C20/transaction-in-two-batches", hit.desc, detail=hit.detail))
+    return out
+
+
+def tags_pool_c20(h, obs):
+    from .. import gen_pool
+    return gen_pool.tags_pool(h, obs)
+
+
 def _register():
     register(PropSpec(
     "C20",
     engines=[EngineSpec("sync", gen_sync, mon_sync, tags_sync, quick_n=150, thorough_n=5000),
-             EngineSpec("order", gen_order, mon_order, tags_order, quick_n=300, thorough_n=10000)],
+             EngineSpec("order", gen_order, mon_order, tags_order, quick_n=300, thorough_n=10000),
+             EngineSpec("pool", gen_pool_c20, mon_pool_c20, tags_pool_c20, quick_n=150, thorough_n=5000)],
     rule="sync engine: every (begin,end,fetch) triple below a small bound exhaustively plus random large triples. order engine: the real "
          "etcdraft.Node apply loop (entriesToApply/publishEntries/reportState/maybeTriggerSnapshot on real RaftStorage) fed with committed logs "
          "containing valid, stale-leader, future and empty entries in arbitrary chunks, interleaved with execution, in-order/out-of-order/missing "
          "reports, snapshots (snapCount 2/3/5/1000) and crash-restarts that rebuild the node from the same storage and re-deliver the log after the "
-         "snapshot; non-trivial = refused/single/multi range or minted/replayed blocks; distinct = distinct op list",
+         "snapshot; pool engine (the source of every proposed batch): the traffic of C18, rule 'the same (account, nonce) is not handed out twice before it is "
+         "committed' (a transaction in at most one delivered block); non-trivial = refused/single/multi range or minted/replayed blocks or a batch; distinct = distinct op list",
     ))
 
 
